@@ -44,7 +44,7 @@ class Part:
 
     @staticmethod
     def PROJECT(v, c, o):
-        (cache, lookup, reqs, watched, acks, table, closed, s1, s2, s3, s4, s10) = v
+        (cache, lookup, reqs, watched, acks, table, closed, s1, s2, s3, s4, s10, s19) = v
         return (cache and lookup and table, s1)
 
     @classmethod
